@@ -31,7 +31,7 @@ RULE = ("11 generator slots per round (250 rounds quick, 1200 thorough): route-t
         "(route-translate on orthogonal scenes carries the tag route-translate-orth). "
         "Scenes: 1-7 (thorough: up to 14) integer rectangles in grid cells, 1-7 connectors with ends on cell-border lines, segmentPenalty in "
         "{0,1,3,10,50}, shapeBufferDistance 0 or 1/2, "
-        "optionally a shape move + second transaction. A *-twice case is non-trivial if the two runs saw different heap address "
+        "optionally a shape move + second transaction. Between run A and run B of every *-twice case: heap scrambling, an unrelated router, an unrelated VPSC solve and unrelated libcola work touching process-global state (ConstrainedFDLayout with makeFeasible() default / non-default non-zero / one-sided borders + run(), overlap avoidance, cluster hierarchy; ConstrainedMajorizationLayout with overlap avoidance; removeoverlaps with fixed set and third pass); the static vpsc::Rectangle::xBorder/yBorder before and after each run are compared as extra observables. A *-twice case is non-trivial if the two runs saw different heap address "
         "orders (probe) and produced output; a frame case if some route bends / some variable is moved by a constraint.")
 TRUSTED_BASE = ["Lean 4.33 kernel", "axioms: propext, Classical.choice, Quot.sound", "harness/c20.cpp (generators, frame images of scenes, heap perturbation)",
                 "hex-float printing/parsing", "compiled Lean driver agrees with the kernel semantics of Model/Frame and Num/Sqrt",
